@@ -38,6 +38,13 @@ TestMsg(ty, dst, ser, rs, fl) ==
 MCNext ==
   \E s \in Slot :
     \/ \E u \in Uids : Connect(s, u, FALSE)
+    \/ "fd" \in Ops /\ \E u \in Uids : Connect(s, u, TRUE)
+    \* descriptors (tokens 1, 2; a token can be attached only while it is nowhere in the system)
+    \/ "fd" \in Ops /\ fdx.cap[s] /\ \E att \in {<<>>, <<1>>, <<2>>, <<1, 2>>}, nfd \in 0..2, ty \in SendTy, d \in Names \cup {<<>>} \cup {uname[x] : x \in Slot} :
+           LET pool == fdx.held[s] \o att IN
+           /\ (d # <<>> \/ ty = 4) /\ nfd <= Len(pool) /\ Len(pool) <= 2
+           /\ \A i \in 1..Len(att) : \A x \in Slot : \A j \in 1..Len(fdx.held[x]) : fdx.held[x][j] # att[i]
+           /\ Send(s, [TestMsg(ty, d, 1, 0, 1) EXCEPT !.nfd = nfd, !.fds = SubSeq(pool, 1, nfd)], SubSeq(pool, nfd + 1, Len(pool)))
     \/ Cardinality(everNames) < MaxUnique /\ Hello(s, 1, 0, NextUnique)
     \/ cst[s] = "active" /\ Hello(s, 1, 0, <<>>)
     \/ "names" \in Ops /\ \E n \in Names, f \in FlagSet : RequestName(s, 1, 0, n, f)
@@ -145,6 +152,16 @@ RefusalChangesNothing ==
 RefusedCallLeavesNoSlot ==
   [][(\E i \in 1..Len(out') : out'[i].m.err = E_LimitsExceeded /\ out'[i].m.org = 0 /\ act'.pend = act.pend)
        => Len(pend') <= Len(pend)]_vars
+\* ---- C15: descriptors
+\* a message carrying descriptors only ever goes to connections that negotiated descriptor passing, with exactly the
+\* descriptors it claimed
+FdOnlyToCapable == \A i \in 1..Len(out) : out[i].m.fds # <<>> => fdx.cap[out[i].to] /\ Len(out[i].m.fds) = out[i].m.nfd
+\* a descriptor is never both handed on and still held; no descriptor is held twice; a gone connection holds none
+HeldTokens == UNION {{fdx.held[x][j] : j \in 1..Len(fdx.held[x])} : x \in Slot}
+FdHeldOnce == /\ \A x \in Slot : \A i, j \in 1..Len(fdx.held[x]) : i # j => fdx.held[x][i] # fdx.held[x][j]
+              /\ \A x, y \in Slot : x # y => \A i \in 1..Len(fdx.held[x]) : \A j \in 1..Len(fdx.held[y]) : fdx.held[x][i] # fdx.held[y][j]
+              /\ \A x \in Slot : cst[x] = "absent" => fdx.held[x] = <<>>
+FdNotBoth == \A i \in 1..Len(out) : \A k \in 1..Len(out[i].m.fds) : out[i].m.fds[k] \notin HeldTokens
 \* ---- C10: what a misbehaving client can cause
 \* the step in which the bus gives up on a connection (invalid bytes, a monitor or unregistered client speaking)
 \* changes nothing but that connection's fate; only monitors may be shown the offending (valid) message
